@@ -44,18 +44,27 @@ struct c05_session : public vsim_session {
   {
     std::ostream &o = *out;
     o << tag << " " << h.it << " " << vs_hex(h.W);
-    for (size_t i = 0; i < h.centers.size(); i++) o << " " << vs_hex(h.centers[i].real_value);
+    for (size_t i = 0; i < h.centers.size(); i++) o << " " << vs_hex(h.centers[i]);   // all components
     o << "\n";
   }
 
   // metadump <bias> <grids 0|1>
   bool exec_extra(std::string const &cmd, std::vector<std::string> const &a, std::istream &) override
   {
-    if (cmd != "metadump" && cmd != "metatraj") return false;
+    if (cmd != "metadump" && cmd != "metatraj" && cmd != "metatarget") return false;
     std::ostream &o = *out;
     colvarbias *b0 = cvm::bias_by_name(a[0]);
     colvarbias_meta *b = dynamic_cast<colvarbias_meta *>(b0);
     if (!b) { o << "META none\n"; return true; }
+    if (cmd == "metatarget") {
+      // ebMeta: the target distribution as used (after the normalisation done at initialisation)
+      o << "TARGET";
+      if (b->ebmeta && b->target_dist) {
+        for (size_t k = 0; k < b->target_dist->data.size(); k++) o << " " << vs_hex(b->target_dist->data[k]);
+      }
+      o << "\n";
+      return true;
+    }
     if (cmd == "metatraj") {
       // the buffered hills trajectory (writeHillsTrajectory on): one line per add_hill, in order
       std::istringstream is(b->hills_traj_os_buf.str());
@@ -67,10 +76,18 @@ struct c05_session : public vsim_session {
     bool want_grids = a.size() > 1 && atoi(a[1].c_str()) != 0;
     size_t nnew = 0;
     for (colvarbias_meta::hill_iter h = b->new_hills_begin; h != b->hills.end(); h++) nnew++;
-    o << "META nhills=" << b->hills.size() << " nnew=" << nnew << " noff=" << b->hills_off_grid.size() << "\n";
+    // hills_off_grid from new_hills_off_grid_begin on (found by position: never dereferenced)
+    size_t noffnew = 0, pos = 0;
+    bool seen = false;
+    for (colvarbias_meta::hill_iter h = b->hills_off_grid.begin(); h != b->hills_off_grid.end(); h++, pos++) {
+      if (h == b->new_hills_off_grid_begin) { seen = true; noffnew = b->hills_off_grid.size() - pos; break; }
+    }
+    (void) seen;
+    o << "META nhills=" << b->hills.size() << " nnew=" << nnew << " noff=" << b->hills_off_grid.size()
+      << " noffnew=" << noffnew << "\n";
     o << "MENERGY " << vs_hex(b->bias_energy) << "\n";
     o << "MFORCE";
-    for (size_t i = 0; i < b->colvar_forces.size(); i++) o << " " << vs_hex(b->colvar_forces[i].real_value);
+    for (size_t i = 0; i < b->colvar_forces.size(); i++) o << " " << vs_hex(b->colvar_forces[i]);   // all components
     o << "\n";
     for (colvarbias_meta::hill &h : b->hills) print_hill("HILL", h);
     for (colvarbias_meta::hill &h : b->hills_off_grid) print_hill("OFF", h);
